@@ -44,6 +44,9 @@ def run(R):
     ctx, prog = S.ctx, S.prog
     c03.setup(S, R.tier, R)
     ctx.hooks["exact_collect_max"] = 1100
+    ctx.hooks["keep_heads_max"] = 1100
+    # the entry points build their tables with loops as well as with iterator chains: follow them exactly (lengths are constants)
+    ctx.path_mode_fns = lambda inst: "CyclotomicFourier" in inst.name or "FastFft" in inst.name
     R.trust("rustc CTFE + MIR (nightly)", "E0 fact extractor", "E2 abstract interpreter", "mpmath (50 digits)")
     calls = []
 
